@@ -584,6 +584,8 @@ impl Actor for ScriptedSend {
 // -----------------------------------------------------------------------------------------
 
 pub type SpawnRes = Result<(ActorRef<Msg>, JoinHandle<()>), SpawnErr>;
+/// the start handle of `spawn_instant*`
+pub type InstHandle = JoinHandle<Result<JoinHandle<()>, SpawnErr>>;
 
 #[derive(Default)]
 pub struct ActorSlot {
@@ -597,11 +599,22 @@ pub struct ActorSlot {
     pub open: Option<String>,
     /// a segment was supplied and not yet consumed
     pub seg_pending: bool,
+    /// `spawn_instant*`: the start handle, the gated task that runs `start()` (on the harness runtime),
+    /// whether that task was polled at least once
+    pub inst: Option<InstHandle>,
+    pub inst_task: Option<Arc<TaskCtl>>,
+    pub inst_started: bool,
+    /// the supervisor requested at spawn time (the link is made when `start()` gets there)
+    pub want_sup: Option<usize>,
 }
 
 impl ActorSlot {
     pub fn spawn_alive(&self) -> bool {
-        self.spawn.as_ref().is_some_and(|s| s.alive())
+        self.spawn.as_ref().is_some_and(|s| s.alive()) || self.inst_task.as_ref().is_some_and(|t| !t.is_done())
+    }
+    /// an instant spawn whose start task was never polled
+    pub fn unstarted_instant(&self) -> bool {
+        self.inst_task.as_ref().is_some_and(|t| !t.is_done()) && !self.inst_started
     }
     pub fn task_live(&self) -> bool {
         self.task.as_ref().is_some_and(|t| !t.is_done())
@@ -751,6 +764,7 @@ impl World {
         self.actors.push(ActorSlot {
             spawn: Some(hand),
             start_task: Some(st.clone()),
+            want_sup: sup,
             ..Default::default()
         });
         // first granted poll of the start task: `pre_start` is entered
@@ -816,6 +830,211 @@ impl World {
         }
     }
 
+    /// `spawn_instant` / `spawn_linked_instant` (Send, thread-local or adapter flavour): only `new()`
+    /// runs; the `ActorRef` is registered at once, the start task is gated and not yet polled.
+    pub fn spawn_instant(&mut self, sup: Option<usize>, name: Option<&str>) -> usize {
+        let a = self.actors.len();
+        self.sh.slots.lock().unwrap().push(Slot::default());
+        if let Some(n) = name {
+            self.note_name(n);
+        }
+        let real = name.map(|n| self.sh.real(n));
+        let before = self.eng.ntasks();
+        let supcell = sup.and_then(|p| self.me(p)).map(|p| p.get_cell());
+        let res = if let Some(spawner) = self.local.clone() {
+            use ractor::thread_local::ThreadLocalActor;
+            let args = (a, self.sh.clone());
+            match (self.adapter, supcell) {
+                (false, Some(p)) => ScriptedLocal::spawn_linked_instant(real, args, p, spawner),
+                (false, None) => ScriptedLocal::spawn_instant(real, args, spawner),
+                (true, Some(p)) => <ScriptedSend as ThreadLocalActor>::spawn_linked_instant(real, args, p, spawner),
+                (true, None) => <ScriptedSend as ThreadLocalActor>::spawn_instant(real, args, spawner),
+            }
+        } else {
+            let handler = Scripted {
+                idx: a,
+                sh: self.sh.clone(),
+            };
+            match supcell {
+                Some(p) => ractor::ActorRuntime::<Scripted>::spawn_linked_instant(real, handler, (), p),
+                None => ractor::ActorRuntime::<Scripted>::spawn_instant(real, handler, ()),
+            }
+        };
+        match res {
+            Err(e) => {
+                verif::note(format!("ret Err({})", spawn_err_str(&e)));
+                self.actors.push(ActorSlot::default());
+            }
+            Ok((r, h)) => {
+                assert_eq!(self.eng.ntasks(), before + 1, "spawn_instant must create exactly one task");
+                self.sh.pids.lock().unwrap().insert(r.get_id().pid(), a);
+                self.sh.slots.lock().unwrap()[a].me = Some(r);
+                self.actors.push(ActorSlot {
+                    inst: Some(h),
+                    inst_task: self.eng.ctl.task(before),
+                    want_sup: sup,
+                    ..Default::default()
+                });
+                verif::note("inst Ok".into());
+            }
+        }
+        a
+    }
+
+    /// The start task of an instant spawn is over: report what its handle says.
+    fn finish_instant(&mut self, a: usize) {
+        let Some(h) = self.actors[a].inst.take() else { return };
+        let mut hand = Hand::new(h);
+        let mut res = hand.poll_once();
+        let mut i = 0u32;
+        while res.is_none() && i < 200_000 {
+            if i > 50 {
+                std::thread::sleep(std::time::Duration::from_micros(20));
+            } else {
+                std::thread::yield_now();
+            }
+            res = hand.poll_once();
+            i += 1;
+        }
+        match res {
+            Some(Ok(Ok(h))) => {
+                self.actors[a].handle = Some(h);
+                verif::note("ret Ok".into());
+            }
+            Some(Ok(Err(e))) => verif::note(format!("ret Err({})", spawn_err_str(&e))),
+            Some(Err(e)) if e.is_cancelled() => verif::note("sjoin Cancelled".into()),
+            Some(Err(_)) => verif::note("ret Panic".into()),
+            None => verif::note("ret Pending".into()),
+        }
+    }
+
+    /// One poll of the start task of an instant spawn (`pollspawn a` on such an actor).
+    async fn pollspawn_instant(&mut self, a: usize) {
+        let Some(ot) = self.actors[a].inst_task.clone() else {
+            verif::note("nospawn".into());
+            return;
+        };
+        if ot.is_done() {
+            verif::note("nospawn".into());
+            return;
+        }
+        let first = !self.actors[a].inst_started;
+        self.actors[a].inst_started = true;
+        if self.local.is_none() {
+            let before = self.eng.ntasks();
+            self.eng.poll_task(&ot).await;
+            if ot.is_done() {
+                if self.eng.ntasks() == before + 1 {
+                    self.actors[a].task = self.eng.ctl.task(before);
+                }
+                self.finish_instant(a);
+            }
+            return;
+        }
+        // thread-local: the outer task (harness runtime) runs `start()`: status, link, ship the
+        // builder; the inner start task (spawner thread) runs `pre_start`; then the loop task
+        if first {
+            let before = self.eng.ntasks();
+            self.eng.poll_task(&ot).await;
+            if ot.is_done() {
+                self.finish_instant(a);
+                return;
+            }
+            let eng_ctl = self.eng.ctl.clone();
+            self.spin_until("instant start task", || eng_ctl.len() == before + 1);
+            self.actors[a].start_task = self.eng.ctl.task(before);
+        }
+        let st = self.actors[a].start_task.clone().expect("inner start task");
+        if !st.is_done() {
+            let before = self.eng.ntasks();
+            self.eng.poll_task(&st).await;
+            if self.eng.ntasks() == before + 1 {
+                self.actors[a].task = self.eng.ctl.task(before);
+            }
+        }
+        if st.is_done() {
+            // the outer task takes the reply / the inner join result and completes
+            for i in 0..200_000u32 {
+                self.eng.poll_task(&ot).await;
+                if ot.is_done() {
+                    break;
+                }
+                if i > 50 {
+                    std::thread::sleep(std::time::Duration::from_micros(20));
+                } else {
+                    std::thread::yield_now();
+                }
+            }
+            assert!(ot.is_done(), "outer start task of a finished instant start never completed");
+            self.finish_instant(a);
+        }
+    }
+
+    /// `dropspawn a` on an instant spawn: abort the start task through its handle.
+    async fn dropspawn_instant(&mut self, a: usize) {
+        let Some(ot) = self.actors[a].inst_task.clone() else {
+            verif::note("nospawn".into());
+            return;
+        };
+        if ot.is_done() {
+            verif::note("nospawn".into());
+            return;
+        }
+        if let Some(h) = self.actors[a].inst.as_ref() {
+            h.abort();
+        }
+        self.eng.settle_done(&ot).await;
+        if let Some(st) = self.actors[a].start_task.clone() {
+            self.eng.settle_done(&st).await;
+        }
+        self.finish_instant(a);
+    }
+
+    /// Would `a.link(p)` close a supervision cycle? (`p` is `a` or has `a` among its ancestors,
+    /// following the real supervisor links and the links that pending starts are going to make.)
+    /// ractor does not refuse such a link; in a cycle a dying actor's own `terminate()` comes back
+    /// to it and clears its supervisor before `notify_supervisor`. The harness never builds one.
+    pub fn would_cycle(&self, a: usize, p: usize) -> bool {
+        let mut seen = vec![false; self.actors.len()];
+        let mut stack = vec![p];
+        while let Some(x) = stack.pop() {
+            if x == a {
+                return true;
+            }
+            if x >= seen.len() || seen[x] {
+                continue;
+            }
+            seen[x] = true;
+            if let Some(me) = self.me(x) {
+                if let Some(q) = me.get_cell().try_get_supervisor() {
+                    if let Some(i) = self.sh.pids.lock().unwrap().get(&q.get_id().pid()) {
+                        stack.push(*i);
+                    }
+                }
+            }
+            if self.actors[x].spawn_alive() {
+                if let Some(q) = self.actors[x].want_sup {
+                    stack.push(q);
+                }
+            }
+        }
+        false
+    }
+
+    /// The public `ActorCell::link` / `unlink`.
+    pub fn link(&mut self, a: usize, p: usize) {
+        match (self.me(a), self.me(p)) {
+            (Some(x), Some(y)) => x.get_cell().link(y.get_cell()),
+            _ => verif::note("nocell".into()),
+        }
+    }
+    pub fn unlink(&mut self, a: usize, p: usize) {
+        match (self.me(a), self.me(p)) {
+            (Some(x), Some(y)) => x.get_cell().unlink(y.get_cell()),
+            _ => verif::note("nocell".into()),
+        }
+    }
+
     /// Variant-independent entry points used by the harness binaries.
     pub async fn spawn_any(&mut self, sup: Option<usize>, name: Option<&str>) -> usize {
         if self.local.is_some() {
@@ -825,14 +1044,18 @@ impl World {
         }
     }
     pub async fn pollspawn_any(&mut self, a: usize) {
-        if self.local.is_some() {
+        if self.actors[a].inst_task.is_some() {
+            self.pollspawn_instant(a).await
+        } else if self.local.is_some() {
             self.pollspawn_local(a).await
         } else {
             self.pollspawn(a)
         }
     }
     pub async fn dropspawn_any(&mut self, a: usize) {
-        if self.local.is_some() {
+        if self.actors[a].inst_task.is_some() {
+            self.dropspawn_instant(a).await
+        } else if self.local.is_some() {
             self.dropspawn_local(a).await
         } else {
             self.dropspawn(a)
@@ -877,6 +1100,7 @@ impl World {
         };
         self.actors.push(ActorSlot {
             spawn: Some(hand),
+            want_sup: sup,
             ..Default::default()
         });
         self.pollspawn(a);
@@ -1113,6 +1337,20 @@ impl World {
                 s.joined = true;
             }
         }
+        // kills issued by a `terminate()` (hook note `treekill <pid>`): a sorted extra field
+        let mut tk: Vec<usize> = Vec::new();
+        let mut tk_unknown = false;
+        ev.retain(|e| match e.strip_prefix("treekill ") {
+            Some(pid) => {
+                match pid.parse::<u64>().ok().and_then(|p| self.sh.pids.lock().unwrap().get(&p).copied()) {
+                    Some(i) => tk.push(i),
+                    None => tk_unknown = true,
+                }
+                false
+            }
+            None => true,
+        });
+        tk.sort();
         // track open callbacks / pending segments from the notes
         for e in &ev {
             let w: Vec<&str> = e.split(' ').collect();
@@ -1177,8 +1415,17 @@ impl World {
             m.sort();
             tables.push(format!("{g}={}", if m.is_empty() { "-".to_string() } else { m.join(",") }));
         }
+        let tail = if tk.is_empty() && !tk_unknown {
+            String::new()
+        } else {
+            format!(
+                " | tk={}{}",
+                tk.iter().map(|i| i.to_string()).collect::<Vec<_>>().join(","),
+                if tk_unknown { "?" } else { "" }
+            )
+        };
         format!(
-            "{evs} | {} | run={} | {}",
+            "{evs} | {} | run={} | {}{tail}",
             if st.is_empty() { "-".to_string() } else { st.join(" ") },
             if run.is_empty() { "-".to_string() } else { run.join(",") },
             if tables.is_empty() { "-".to_string() } else { tables.join(" ") }
@@ -1194,8 +1441,14 @@ impl World {
             if let Some(h) = s.handle.as_ref() {
                 h.abort();
             }
+            if let Some(h) = s.inst.as_ref() {
+                h.abort();
+            }
         }
         for s in self.actors.iter() {
+            if let Some(t) = s.inst_task.clone() {
+                self.eng.settle_done(&t).await;
+            }
             if let Some(t) = s.start_task.clone() {
                 self.eng.settle_done(&t).await;
             }
